@@ -45,6 +45,7 @@ fn run_cases(cases: &str, out: &str, dir: &str) {
             "bin" => binsuite::run_bin(&toks, &dir),
             "cfg" => cfgsuite::run_cfg(&toks),
             "cfgperm" => cfgsuite::run_cfgperm(&toks),
+            "ccfgperm" => cfgsuite::run_ccfgperm(&toks),
             "ccfg" => cfgsuite::run_ccfg(&toks),
             "dec" => codec::run_dec(&toks),
             "enc" => codec::run_enc(&toks),
